@@ -651,3 +651,16 @@ PROPS["C02"]["lean"] = list(PROPS["C02"]["lean"]) + ["DM.Props.C02SpecMixedX12"]
 PROPS["C02"]["explanation"] += (" spec_mixed_roundtrip_abx (DM/Props/C02SpecMixedX12.lean, DM/Lemmas/SpecMainX12.lean: step_x12 discharges ModeStep for X12 with all three endings and planned switches): every plan over ASCII, Base 256 and X12 without a latch to a non-ASCII mode"
     " planned for the last four characters (the side condition is needed: a kernel-checked stale-latch counterexample is in the file), behind no header / FNC1 / Macro: the reference decoder accepts the stream and returns the message.")
 PROPS["C02"]["unproved"] = ["ModeStep for EDIFACT / C40 / Text inside mixed plans against the reference decoder unless listed in the explanation (proved against the crate's decoder model: mixed_roundtrip_E)"]
+
+# C02: mixed plans against the reference decoder (end of session 4)
+PROPS["C02"]["lean"] = list(PROPS["C02"]["lean"]) + ["DM.Props.C02SpecMixedC40", "DM.Props.C02SpecMixed5", "DM.Props.C02SpecMixedEdi", "DM.Props.C02Planner"]
+PROPS["C02"]["explanation"] += (" Mixed plans, all modes: step_c40 / step_text (DM/Lemmas/SpecC40Gen.lean, SpecMainC40.lean: the encoder analysis of C40Gen is reused through values_bridge) and step_x12 discharge ModeStep;"
+    " spec_mixed_roundtrip_5 (DM/Props/C02SpecMixed5.lean) - for every plan within PlanOK (ASCII, Base 256, C40, Text, X12 in any order; no EDIFACT entry; no latch to a non-ASCII mode planned for the last four characters: the side condition of mixed_roundtrip, which"
+    " covers 84 % of the optimiser's plans in the sweep), every message of bytes, every symbol list and each header (none, FNC1, Macro 05, Macro 06): the reference decoder accepts the stream and returns the message, no ECI, the first pad exactly where the encoder's codewords end;"
+    " spec_mixed_roundtrip_abe (DM/Props/C02SpecMixedEdi.lean, DM/Lemmas/SpecMainEdi.lean) - plans over ASCII, Base 256 and EDIFACT within PlanOKE (EDIFACT as the final stretch over EDIFACT characters): UNLATCH group, ASCII end game and exact fit;"
+    " planned_conformant (DM/Props/C02Planner.lean) - composed with the coupling theorem: a plan returned by the planner model inside the decidable side conditions planOK and PlanOK whose predicted cost fits makes the encoder model succeed within the predicted symbol"
+    " with exactly its number of data codewords, and the reference decoder returns the message (header / trailer re-created for Macro). Each side condition is shown necessary by a kernel-checked stale-latch counterexample.")
+PROPS["C02"]["level_text"] = ("Partial proof: shape of every successful run (listed symbol, exact length, standard padding reached in ASCII mode) for all plans; conformance against the independent reference decoder is a theorem for every plan within PlanOK (all modes but EDIFACT in any order,"
+    " no late non-ASCII latch: 84 % of the optimiser's plans in the sweep), for ASCII / Base 256 / EDIFACT-final-stretch plans, for the pure plan of each of the six modes, behind no header / FNC1 / Macro 05 / 06, and composed with the planner model (planned_conformant);"
+    " EDIFACT together with C40 / Text / X12 or left before the end, late latches and ECI prefixes: the reference decoder is the oracle on every stream of the sweep; the encoder model is tied to the code by correspondence on real and injected plans.")
+PROPS["C02"]["unproved"] = ["spec round trip for plans that combine EDIFACT with C40 / Text / X12, leave EDIFACT before the end of the data, or latch into a non-ASCII mode within the last four characters; ECI prefix codewords"]
